@@ -497,12 +497,65 @@ def _cmap_format4(mapping, rnd):
     return struct.pack(">HHH", 4, length, 0) + body
 
 
+def _cmap_format2(mapping, rnd):
+    """OpenType cmap format 2 (high-byte mapping through table) for two-byte codes: subheader 0 is the (empty)
+    single-byte subheader, every high byte that has characters gets a subheader of its own.  Free choices: idDelta
+    (applied modulo 65536 to non-zero entries), slack in firstCode/entryCount, order of the glyph sub-arrays."""
+    by_hi = {}
+    for c, g in mapping.items():
+        if not (0 <= c < 0x10000 and 0 < g < 0x10000):
+            raise ValueError("format 2 needs 16-bit chars and non-zero 16-bit glyphs")
+        by_hi.setdefault(c >> 8, {})[c & 255] = g
+    his = sorted(by_hi)
+    keys = [0] * 256
+    subs = [(0, 0, 0, [])]  # (firstCode, entryCount, idDelta, stored glyph entries)
+    for k, hi in enumerate(his, 1):
+        keys[hi] = 8 * k
+        lows = by_hi[hi]
+        first, last = min(lows), max(lows)
+        if rnd is not None and rnd.random() < 0.3:
+            first = max(0, first - rnd.randrange(3))
+            last = min(255, last + rnd.randrange(3))
+        delta = 0
+        if rnd is not None and rnd.random() < 0.6:
+            delta = rnd.choice([1, -1, 7, -300, 300, 32767, -32768, rnd.randrange(-32768, 32768)])
+            if any(((g - delta) & 0xFFFF) == 0 for g in lows.values()):
+                delta = 0
+        ent = [((lows[x] - delta) & 0xFFFF) if x in lows else 0 for x in range(first, last + 1)]
+        subs.append((first, last - first + 1, delta, ent))
+    order = list(range(len(subs)))
+    if rnd is not None:
+        rnd.shuffle(order)
+    arr_off = {}
+    pos = 0
+    for k in order:
+        arr_off[k] = pos
+        pos += 2 * len(subs[k][3])
+    nsub = len(subs)
+    body = struct.pack(">256H", *keys)
+    for k, (first, cnt, delta, ent) in enumerate(subs):
+        # idRangeOffset: from the location of this field to the sub-array
+        field_pos = 8 * k + 6
+        rng = (8 * nsub + arr_off[k]) - field_pos
+        body += struct.pack(">HHhH", first, cnt, delta, rng)
+    arrays = bytearray(pos)
+    for k in order:
+        ent = subs[k][3]
+        arrays[arr_off[k]:arr_off[k] + 2 * len(ent)] = struct.pack(">%dH" % len(ent), *ent)
+    body += bytes(arrays)
+    length = 6 + len(body)
+    if length > 0xFFFF:
+        raise ValueError("format 2 subtable too long")
+    return struct.pack(">HHH", 2, length, 0) + body
+
+
 def build_cmap_table(subtables, rnd=None):
     """subtables: [(platformID, encodingID, format, {char: gid})]"""
     blobs = []
     for pid, eid, fmt, mapping in subtables:
         mapping = {int(k): v for k, v in mapping.items()}
-        blobs.append(_cmap_format0(mapping) if fmt == 0 else _cmap_format4(mapping, rnd))
+        blobs.append(_cmap_format0(mapping) if fmt == 0 else _cmap_format2(mapping, rnd) if fmt == 2 else
+                     _cmap_format4(mapping, rnd))
     hdr = struct.pack(">HH", 0, len(subtables))
     off = 4 + 8 * len(subtables)
     recs = b""
